@@ -518,4 +518,101 @@ def streamEntriesC (ext : Ext) (pattern : List Consume) : (fuel : Nat) → (i : 
       let rest ← streamEntriesC ext pattern fuel (i + 1)
       pure (x :: rest)
 
+/-! ### The streaming reader under faults: `ZipStreamReader::visit` draining explicitly, `Interrupted` retried
+
+After the repair of K-J for the visitor API (`fix: ZipStreamReader::visit drains each entry itself and returns a read
+error of that drain`): `ZipFile::drain_stream` is the loop of the old `Drop` returning the read error (and issuing a
+read again that failed with `ErrorKind::Interrupted`); `Drop` calls it and discards the result; `visit` calls it after
+`visit_file` and returns the error. -/
+
+open M in
+/-- `ZipFile::drain_stream` on a `Take` with `rem` bytes of its limit left: 64 KiB reads until `Ok(0)`; a read error is
+RETURNED (`Interrupted` apart: see `M.retried` at the call sites). -/
+def drainE (rem : Nat) : M Unit := do
+  let (_, e) ← takeLoop 65536 rem rem
+  match e with
+  | some e => throw e
+  | none => pure ()
+
+open M in
+/-- The first half of one round of `visit`, up to the return of `visit_file`, under a visitor that asks for `c.k`
+decoded bytes and returns a failed read to `visit` (`?`, as `extract` does with `io::copy(..)?`): the header
+(`read_exact` throughout: `Interrupted` retried); the visitor's reads (bare reads: every kind reaches the visitor).
+When the visitor returns `Err` (a failed read, a checksum / decoder error) `visit` returns it, the handle is dropped
+and `Drop` drains SILENTLY.  Otherwise: the entry, the bytes shown, and what is left of the `Take`. -/
+def visitFile (ext : Ext) (c : Consume) : M (Option (FileData × Bytes × Nat)) := do
+  let h ← retried streamHeader
+  match h with
+  | none => pure none
+  | some f => do
+    let csize := f.compressedSize.toNat
+    let d ← getDev
+    let raw := (d.buf.drop d.pos).take csize
+    let p := min c.pulled csize
+    let (n, e) ← takeLoop c.chunk p p
+    match e with
+    | some e => do retried (drain (csize - n)); throw e
+    | none =>
+      match ext.consume f raw c.k with
+      | .err e => do retried (drain (csize - n)); throw e
+      | .panic s => M.panic s
+      | .ok bytes => pure (some (f, bytes, csize - n))
+
+open M in
+/-- One round of `visit`: `visit_file`, then `file.drain_stream()?` - a read error of the drain is `visit`'s error. -/
+def visitEntry (ext : Ext) (c : Consume) : M (Option (FileData × Bytes)) := do
+  let r ← visitFile ext c
+  match r with
+  | none => pure none
+  | some (f, bytes, rem) => do retried (drainE rem); pure (some (f, bytes))
+
+open M in
+/-- the `visit_file` rounds of `visit` under a per-entry consumption pattern (cycled) -/
+def visitEntries (ext : Ext) (pattern : List Consume) : (fuel : Nat) → (i : Nat) → M (List (FileData × Bytes))
+  | 0, _ => pure []
+  | fuel + 1, i => do
+    let e ← visitEntry ext (Consume.at pattern i)
+    match e with
+    | none => pure []
+    | some x => do
+      let rest ← visitEntries ext pattern fuel (i + 1)
+      pure (x :: rest)
+
+open M in
+/-- the `visit_additional_metadata` part of `visit` on a stream of `len` bytes (`read_exact` throughout) -/
+def visitCentral (len : Nat) : M (List FileData) := do
+  let first ← retried (centralHeaderInner 0 0)
+  let rest ← retried (streamCentralLoop (len / 46 + 1))
+  pure (first :: rest)
+
+open M in
+/-- **`ZipStreamReader::visit` under any consumption pattern**: what the visitor is shown (per entry the bytes it
+asked for; then the metadata records).  With a visitor that reads every entry to its end and the failure-free device
+this is `streamVisit` (whose visitor records a content error instead of returning it). -/
+def streamVisitC (ext : Ext) (pattern : List Consume) : M (List (FileData × Bytes) × List FileData) := do
+  let d ← getDev
+  let files ← visitEntries ext pattern (d.buf.length / 30 + 1) 0
+  let metas ← visitCentral d.buf.length
+  pure (files, metas)
+
+open M in
+/-- `read_zipfile_from_stream` + consumer + `Drop`, as `streamEntryC`, with `Interrupted` treated as the code treats
+it: retried in the header's `read_exact`s and (since the repair) in the drop-time drain, a hard failure for the
+consumer's own reads.  Equal to `streamEntryC` on every device that fails with another kind
+(`Lemmas/FaultReader.streamEntryCI_hard`). -/
+def streamEntryCI (ext : Ext) (c : Consume) : M (Option (FileData × Out Bytes)) := do
+  let h ← retried streamHeader
+  match h with
+  | none => pure none
+  | some f => do
+    let csize := f.compressedSize.toNat
+    let d ← getDev
+    let raw := (d.buf.drop d.pos).take csize
+    let p := min c.pulled csize
+    let (n, e) ← takeLoop c.chunk p p
+    retried (drain (csize - n))
+    match e with
+    | some e => pure (some (f, .err e))
+    | none => pure (some (f, ext.consume f raw c.k))
+
 end ZipVerif.Model
